@@ -190,15 +190,15 @@ Proof.
   destruct (format_solution (GCall q) r) as [txt| |]; reflexivity.
 Qed.
 
-Lemma solve_all_loop_frame kb pre : forall fuel nd q acc w,
-  solve_all_loop fuel kb nd q acc (wpre pre w) = spre pre (solve_all_loop fuel kb nd q acc w).
+Lemma solve_all_loop_frame kb pre fuel : forall n nd q acc w,
+  solve_all_loop n fuel kb nd q acc (wpre pre w) = spre pre (solve_all_loop n fuel kb nd q acc w).
 Proof.
-  induction fuel as [|f IH]; intros nd q acc w; [reflexivity|].
+  induction n as [|f IH]; intros nd q acc w; [reflexivity|].
   cbn [solve_all_loop]. rewrite next_frame.
-  destruct (next kb (S f) (S f) nd w) as [[[[n1 o1] b1] w1]| |]; cbn [rpre bind spre]; try reflexivity.
+  destruct (next kb fuel fuel nd w) as [[[[n1 o1] b1] w1]| |]; cbn [rpre bind spre]; try reflexivity.
   rewrite wpre_query_stopped. destruct (query_stopped w1) as [st w2]. cbn [fst snd].
   destruct st; [reflexivity|]. destruct o1 as [s|]; [|reflexivity].
-  destruct (replace_variables (S f) q s) as [r| |]; cbn [bind]; try reflexivity.
+  destruct (replace_variables fuel q s) as [r| |]; cbn [bind]; try reflexivity.
   destruct (format_solution (GCall q) r) as [txt| |]; cbn [bind]; try reflexivity. apply IH.
 Qed.
 
@@ -206,7 +206,7 @@ Lemma solve_all_frame kb pre fuel nd w : solve_all fuel kb nd (wpre pre w) = spr
 Proof.
   unfold solve_all. destruct (node_goal_term nd) as [q|]; [|reflexivity].
   rewrite wpre_set_flag, solve_all_loop_frame.
-  destruct (solve_all_loop fuel kb nd q [] (w_set_flag w false)) as [[[n1 acc] w1]| |]; cbn [spre bind]; try reflexivity.
+  destruct (solve_all_loop fuel fuel kb nd q [] (w_set_flag w false)) as [[[n1 acc] w1]| |]; cbn [spre bind]; try reflexivity.
   rewrite wpre_query_stopped. destruct (query_stopped w1) as [st w2]. reflexivity.
 Qed.
 
